@@ -115,7 +115,7 @@ func (j *Join) Exec() ([]any, error) {
 		{
 			return j.StraightJoin()
 		}
-	case j.joinType.IsHashJoin() || hashJoinAnalyze(j.leftIdent, j.rightIdent, j.joinExpr):
+	case hashJoinAnalyze(j.leftIdent, j.rightIdent, j.joinExpr):
 		{
 			return j.HashJoin()
 		}
